@@ -112,7 +112,7 @@ func c06StoreIntake(r *an.Run) {
 							conj(b.Y)
 							return
 						}
-						if reMatch(`^\$v:uint8 < shachain\.maxHeight$|^shachain\.maxHeight > \$v:uint8$|^zeros < maxHeight$|^maxHeight > zeros$`, ctz.Canon(e)) {
+						if reMatch(`^\$v:uint8 < shachain\.maxHeight$|^shachain\.maxHeight > \$v:uint8$|^zeros < maxHeight$|^maxHeight > zeros$`, ctz.Canon(e)) || an.Text(e) == "zeros < maxHeight" {
 							bounded = true
 						}
 					}
